@@ -159,8 +159,22 @@ func Parse(s *jet.Set, name, src string) (t *jet.Template, o Outcome) {
 }
 
 // Exec executes t with recover.
+// capBuffer is a bytes.Buffer that refuses to grow beyond limit: a loop that never ends runs into an error
+// instead of eating the machine's memory.
+type capBuffer struct {
+	bytes.Buffer
+	limit int
+}
+
+func (b *capBuffer) Write(p []byte) (int, error) {
+	if b.Len()+len(p) > b.limit {
+		return 0, fmt.Errorf("jetrun: more than %d bytes of output", b.limit)
+	}
+	return b.Buffer.Write(p)
+}
+
 func Exec(t *jet.Template, vars jet.VarMap, data interface{}) (o Outcome) {
-	var buf bytes.Buffer
+	buf := capBuffer{limit: 64 << 20}
 	defer func() {
 		if r := recover(); r != nil {
 			o.Panicked = true
